@@ -1,9 +1,99 @@
 import AioModel.Wire
-/-! Driver commands of property C02 (stub until the model exists). -/
+import AioModel.C02
+import Driver.Http
+/-!
+Driver commands of property C02.
+
+* `resp k=v …`  → the server-side preparation decision, the framing the writer puts on the
+  wire, the client parser's view of it and its keep-alive decision (`Aio.C02.respVerdict`)
+* `req k=v …`   → the same for the request direction (`Aio.C02.reqVerdict`)
+* `feed …`      → the shared HTTP parser model on the recorded wire bytes (`Aio.Driver.Http`)
+-/
 namespace Aio.Driver.C02
-open Aio Aio.Wire
+open Aio Aio.Wire Aio.C02
+
+def kv (args : List String) : List (String × String) :=
+  args.filterMap (fun a => match a.splitOn "=" with | [k, v] => some (k, v) | _ => none)
+
+def get (m : List (String × String)) (k : String) : Option String := (m.find? (·.1 == k)).map (·.2)
+
+def optNat (s : String) : Option (Option Nat) := if s == "none" then some none else s.toNat?.map some
+def bool? (s : String) : Option Bool := if s == "1" then some true else if s == "0" then some false else none
+def optBool (s : String) : Option (Option Bool) := if s == "none" then some none else (bool? s).map some
+def ver? (s : String) : Option Ver :=
+  match s.splitOn "." with
+  | [a, b] => do pure { maj := ← a.toNat?, min := ← b.toNat? }
+  | _ => none
+def coding? (s : String) : Option (Option Coding) :=
+  match s with
+  | "none" => some none | "deflate" => some (some .deflate) | "gzip" => some (some .gzip)
+  | "identity" => some (some .identity) | _ => none
+def body? (s : String) : Option RBody :=
+  match s.splitOn ":" with
+  | ["none"] => some .none
+  | ["bytes", n] => n.toNat?.map .bytes
+  | ["payload", n] => (optNat n).map .payload
+  | _ => none
+def compress? (s : String) : Option Compress :=
+  match s with
+  | "off" => some .off | "on" => some .on | "deflate" => some (.named .deflate)
+  | "gzip" => some (.named .gzip) | "bad" => some .bad | _ => none
+
+def showCoding : Option Coding → String
+  | none => "none" | some .deflate => "deflate" | some .gzip => "gzip" | some .identity => "identity"
+def showOptBool : Option Bool → String
+  | none => "none" | some true => "1" | some false => "0"
+def showFraming : Framing → String
+  | .none => "none" | .length n => s!"len:{n}" | .chunked => "chunked" | .untilClose => "eof"
+def showView (v : View) : String := s!"{showFraming v.framing},{showBool v.hasPayload},{showBool v.upgraded}"
+
+def parseResp (m : List (String × String)) : Option (RespIn × Nat) := do
+  let x : RespIn := {
+    ver := ← ver? (← get m "ver"), method := ← parseHex (← get m "method"), status := ← (← get m "status").toNat?,
+    isResponse := ← bool? (← get m "isresp"), body := ← body? (← get m "body"),
+    userCL := ← optNat (← get m "ucl"), chunked := ← bool? (← get m "chunked"),
+    compression := ← bool? (← get m "comp"), force := ← coding? (← get m "force"),
+    userCE := ← bool? (← get m "uce"), acceptEnc := ← parseHex (← get m "ae"),
+    userConn := ← optBool (← get m "uconn"), userCT := ← bool? (← get m "uct"),
+    reqKeepAlive := ← bool? (← get m "rka"), forceClose := ← bool? (← get m "fc"),
+    zlen := ← (← get m "zlen").toNat? }
+  pure (x, ← (← get m "streamed").toNat?)
+
+def parseReq (m : List (String × String)) : Option (ReqIn × Nat) := do
+  let ucl : Option (Option Nat) ← (match ← get m "ucl" with
+    | "none" => some none
+    | "bad" => some (some none)
+    | s => s.toNat?.map (fun n => some (some n)))
+  let x : ReqIn := {
+    ver := ← ver? (← get m "ver"), method := ← parseHex (← get m "method"),
+    hasData := ← bool? (← get m "hasdata"), dataTruthy := ← bool? (← get m "truthy"),
+    size := ← optNat (← get m "size"), chunked := ← optBool (← get m "chunked"),
+    compress := ← compress? (← get m "compress"), expect100 := ← bool? (← get m "expect"),
+    userCL := ucl, userTEchunked := ← bool? (← get m "ute"), userCE := ← bool? (← get m "uce"),
+    userConn := ← optBool (← get m "uconn"), userExpect := ← bool? (← get m "uexpect"),
+    connForceClose := ← bool? (← get m "cfc"), limited := ← bool? (← get m "limited") }
+  pure (x, ← (← get m "actual").toNat?)
 
 def handle : List String → String
+  | "resp" :: args =>
+    match parseResp (kv args) with
+    | none => "bad-op"
+    | some (x, streamed) =>
+      match respVerdict x streamed with
+      | .error e => "err " ++ e.name
+      | .ok v =>
+        let o := v.out
+        s!"ok cl={showOptNat o.cl} te={showBool o.te} conn={showOptBool o.conn} ce={showCoding o.ce} ctd={showBool o.ctDefault} wlen={showOptNat o.wlength} wch={showBool o.wchunked} wz={showBool o.wcompress} bz={showBool o.bodyCompressed} ka={showBool o.keepAlive} empty={showBool o.emptyBody} wire={showFraming v.wire} view={showView v.view} cclose={showBool v.clientClose}"
+  | "req" :: args =>
+    match parseReq (kv args) with
+    | none => "bad-op"
+    | some (x, actual) =>
+      match reqVerdict x actual with
+      | .error e => "err " ++ e.name
+      | .ok v =>
+        let o := v.out
+        s!"ok cl={showOptNat o.cl} te={showBool o.te} conn={showOptBool o.conn} ce={showCoding o.ce} expect={showBool o.expect} wch={showBool o.wchunked} wz={showBool o.wcompress} writes={showBool o.writes} limit={showOptNat o.limit} wire={showFraming v.wire} view={showView v.view} sclose={showBool v.serverClose}"
+  | "feed" :: rest => Aio.Driver.Http.handle ("feed" :: rest)
   | _ => "bad-op"
 
 end Aio.Driver.C02
